@@ -357,9 +357,10 @@ func advGrid() []advCase {
 // of each family at its critical size (quick).
 func advCases(r *Rng, n int, full bool) []Case {
 	grid := advGrid()
+	rk := rkGrid(r.Fork(424242), full) // every RK-operand instruction kind EXECUTED on both sides of the RK limit (c07_rk.go): always all of them
 	var sel []advCase
 	if full {
-		sel = grid
+		sel = append(grid, rk...)
 	} else {
 		must := []string{"assign-targets-511", "assign-targets-600", "locals-199-call", "locals-200-genfor", "array-25551-existing-local",
 			"array-25600-const", "array-25600-call0", "array-25601-vararg0", "array-25551-call0", "moverun-514-chunk", "moverun-513-function", "moverun-1026-loop", "moverun-1537-chunk", "moverun-600-function", "moverun-512-chunk", "array-25551-operand-len", "array-25600-operand-len-arith", "array-25551-operand-call", "array-25601-operand-compare", "array-25551-operand-in-function", "array-25552-operand-store", "upvalues-255-read", "upvalues-256-read", "upvalues-290-read", "nest-200-functions",
@@ -394,6 +395,7 @@ func advCases(r *Rng, n int, full bool) []Case {
 		for len(sel) < n {
 			sel = append(sel, small[r.Intn(len(small))])
 		}
+		sel = append(sel, rk...)
 	}
 	var cases []Case
 	for _, c := range sel {
